@@ -139,10 +139,20 @@ Spec == Init /\ [][Next]_cur
 
 InvMechanism == MechOutcomes(cur) \subseteq PolicyOutcomes(cur)
 
-Row(c) == [path |-> c.path, defect |-> c.defect, present |-> c.present, limit |-> c.limit,
+\* Framings.  How a well-formed zstd upload is framed is the encoder's choice (RFC 8878): one frame that announces
+\* its content size and no window ("single segment": the window is the content, however large), a streamed frame
+\* with the encoder's default window, a long window.  Policy: every valid framing of a blob within the limits is
+\* acknowledged and the blob is present afterwards - on the two transports whose messages can carry a blob of
+\* several MiB.
+Framings == {"singleSegment", "defaultWindow", "window16MiB"}
+FramingRows == {[path |-> p, defect |-> "none", present |-> FALSE, limit |-> "none", framing |-> fr,
+                  allowed |-> <<"ack">>, presentAfter |-> "yes"] :
+                  p \in {"HttpPutZstd", "BsZstd"}, fr \in Framings}
+
+Row(c) == [path |-> c.path, defect |-> c.defect, present |-> c.present, limit |-> c.limit, framing |-> "",
            allowed |-> SetToSeq(PolicyOutcomes(c)), presentAfter |-> PolicyPresent(c)]
 
 ASSUME Exercised
 ASSUME "VERIF_CASES_OUT" \in DOMAIN IOEnv =>
-         JsonSerialize(IOEnv.VERIF_CASES_OUT, SetToSeq({Row(c) : c \in Cases}))
+         JsonSerialize(IOEnv.VERIF_CASES_OUT, SetToSeq({Row(c) : c \in Cases}) \o SetToSeq(FramingRows))
 =============================================================================
